@@ -265,6 +265,12 @@ def replay(r):
     tabs = all_tables()
     t = [x for x in tabs if [x.family, x.name] == r['table']][0]
     s = [x for x in t.sensors if x.id_ == r['sensor']][0]
+    if r.get('placement') == 'uniform':
+        tabs_ = all_tables()
+        ti = [i for i, x in enumerate(tabs_) if [x.family, x.name] == r['table']][0]
+        n, res = job_table((ti, 0))
+        return dict(evaluations=n, violations=[(v['key'], v['detail']['sensor'], v['detail']['diff']) for v in res
+                                               if v['detail']['sensor'] == r['sensor'] or True])
     if r['own'] == 'map':
         from ..findings import Report
         rp = Report('C12')
